@@ -11,6 +11,7 @@ CONSTANTS
   LayoutSpace <- Layouts
   D = 0
 INVARIANT RoundTrip
+INVARIANT AllOrNothing
 INVARIANT ScalarRoundTrip
 INVARIANT SpeciesExact
 CONSTRAINT EmitRead
